@@ -21,7 +21,7 @@ PROP = dict(
                "well-formed (both are evaluated on every engine case). Modelled, not verified: bytes.Buffer/mempool "
                "as list concatenation, Go uint16/uint32/byte truncation written into the model.",
     engines=[dict(hx="codec_rt")],
-    theorems=["C26_roundtrip", "C26_encodes_permitted_form", "C26_properties", "C26_reencode_partial",
+    theorems=["C26_roundtrip", "C26_encodes_permitted_form", "C26_properties", "C26_fields_preserved", "C26_reencode_partial",
               "C26_reencode_refuted"],
     model_files="coq/Codec/Wire.v coq/Codec/Props.v coq/Codec/MochiCodec.v coq/Codec/CodecNorm.v",
     rule="(kind 2) every Packet value of packets.TPacketData (with and without AllowResponseInfo), boundary values "
